@@ -122,7 +122,7 @@ def campaign(c):
     table = {}
     for i in range(30 if c.quick else 600):
         r = c.rng.fork('gap%d' % i)
-        pool = []
+        pool = []; direct = {}
         for _ in range(3 + r.below(5)):
             k = r.below(6)
             if k <= 1:
@@ -134,6 +134,7 @@ def campaign(c):
             else: pool.append('tf.%s_message("|%s|");' % (r.choice(['client', 'server']), '00' * r.choice([1, 15, 29])))
             if r.chance(1, 3) and not pool[-1].startswith('eth::frame'):
                 # the same value stored first and emitted through its name (once; a second emission is a statement of its own)
+                direct[len(pool) - 1] = pool[-1]
                 pool[-1] = 'let st%d_%d = %s\nst%d_%d;' % (i, len(pool), pool[-1], i, len(pool)); c.count('gap-stored')
         head = 'import ipv4;\nimport dns;\nimport eth;\nimport vxlan;\nlet vx = vxlan::session(1.1.1.1:1, 2.2.2.2:4789);\nlet tf = ipv4::tcp::flow(1.2.3.4:5, 6.7.8.9:80);\n'
         for order in (pool, pool[::-1]):
@@ -146,6 +147,13 @@ def campaign(c):
             for t, fr in recs:
                 if t != last: groups.append((t, [])); last = t
                 groups[-1][1].append(len(fr))
+            if direct and order is pool:
+                # the same packets with the stored values emitted where they are computed: the clock ends at the same time
+                dsrc = (head + '\n'.join(direct.get(k, st) for k, st in enumerate(pool)) + '\n').encode()
+                dres = core.run_cli(dsrc); drecs = progdiff.pcap_records(dres['pcap'] or b'')
+                if drecs and recs and ([x[1] for x in drecs] != [x[1] for x in recs] or drecs[-1][0] != recs[-1][0]):
+                    c.violation('time:gap-depends-on-history', 'emitting stored values by name instead of where they are computed moves the last record from %d ns to %d ns (same packets)' % (drecs[-1][0], recs[-1][0]),
+                                dict(src=src.decode(), direct=dsrc.decode()))
             if len(groups) != len(order): continue
             prev = 0
             for (t, lens), st in zip(groups, order):
